@@ -1395,6 +1395,7 @@ class WcParse(Generic[AnyStr]):
             return
 
         index = len(current) - 1
+        closed = 0
         while index >= 0:
             if isinstance(current[index], InvPlaceholder):
                 content = current[index + 1:]
@@ -1404,8 +1405,10 @@ class WcParse(Generic[AnyStr]):
                     (''.join(content).replace('(?#)', '?:') if self.capture else ''.join(content)) +
                     (_EXCLA_GROUP_CLOSE.format(str(current[index])))
                 )
+                closed += 1
             index -= 1
-        self.inv_ext = 0
+        # Groups still open in an enclosing list stay accounted for
+        self.inv_ext -= closed
 
     def parse_extend(self, c: str, i: util.StringIter, current: list[str], reset_dot: bool = False) -> bool:
         """Parse extended pattern lists."""
